@@ -1,0 +1,28 @@
+//go:build verif
+
+package server
+
+import (
+	"context"
+	"crypto/tls"
+	"time"
+
+	"go.miragespace.co/specter/spec/protocol"
+)
+
+// VerifRouteLoad runs the route cache loader for hostname, bypassing the cache.
+func (s *Server) VerifRouteLoad(ctx context.Context, hostname string) (routes []*protocol.TunnelRoute, err error, ttl time.Duration) {
+	ret, _ := s.routeCacheLoader(ctx, hostname)
+	return ret.Value.routes, ret.Value.err, ret.TTL
+}
+
+// VerifKeylessTTL exposes the time a keyless certificate is kept cached.
+func VerifKeylessTTL(cert *tls.Certificate, now time.Time) time.Duration {
+	return computeKeylessTTL(cert, now)
+}
+
+// VerifKeylessLoad runs the keyless certificate loader, bypassing the cache.
+func (s *Server) VerifKeylessLoad(ctx context.Context, hostname string) (cert *tls.Certificate, err error, ttl time.Duration) {
+	ret, _ := s.keylessCertLoader(ctx, hostname)
+	return ret.Value.cert, ret.Value.err, ret.TTL
+}
